@@ -33,6 +33,9 @@ class IV:
     dom: Optional[str] = None
     elts: Tuple = ()
     obj: Optional[str] = None  # access path of a tensor object
+    shp: Optional[str] = None  # 'vec' (n,) | 'col' (n,1) | 'mat' (n,d) | None
+    cls: Optional[str] = None  # class of a tensor object when known
+    ms: bool = False  # "maybe scalar": tensor[subs] collapses to a Python float when exactly one element is selected
 
 
 UNK = IV()
@@ -52,6 +55,10 @@ def rel(a: Optional[str], b: Optional[str]) -> Optional[bool]:
     if len(A) == 1 and A == B:
         return True
     if not (A & B):
+        return False
+    # one side has a single class on every path, the other has a reaching definition of another class:
+    # on that definition the two are mismatched whatever the path (no correlation is possible)
+    if (len(A) == 1 and not B <= A) or (len(B) == 1 and not A <= B):
         return False
     return None
 
@@ -81,7 +88,7 @@ class IxWalk:
         params = fi.params()
         for i, p in enumerate(params):
             if i == 0 and fi.cls:
-                self.env[p] = IV("obj", obj=p)
+                self.env[p] = IV("obj", obj=p, cls=fi.cls)
             else:
                 ann = fi.annotation(p)
                 t = ast.unparse(ann) if ann is not None else ""
@@ -93,7 +100,75 @@ class IxWalk:
                     self.env[p] = IV("arr", rows="args" if p in ("subs", "vals") else f"{p}")
                 else:
                     self.env[p] = UNK
-        self.block(fi.node.body, self.env)
+        self.count_src: Dict[str, ast.expr] = {}
+        for n in ast.walk(fi.node):
+            if isinstance(n, ast.Assign) and len(n.targets) == 1 and isinstance(n.targets[0], ast.Name) and isinstance(n.value, ast.Subscript) \
+                    and isinstance(n.value.value, ast.Attribute) and n.value.value.attr == "shape" and const(n.value.slice) == 0:
+                self.count_src[n.targets[0].id] = n.value
+        self.mode = "join"
+        self.n_paths = 0
+        init_env = dict(self.env)
+        try:
+            from .paths import enumerate_paths, PathLimit
+            paths = enumerate_paths(fi.node.body, limit=3000)
+            self.mode = "paths"
+        except Exception:
+            paths = None
+        if paths is None:
+            self.block(fi.node.body, self.env)
+        else:
+            self._run_paths(paths, init_env)
+
+    def _run_paths(self, paths, init_env):
+        from . import guards as G
+        canon = G.Canon(self.fi.node)
+        rebound = set()
+        for n in ast.walk(self.fi.node):
+            if isinstance(n, (ast.Assign, ast.AugAssign, ast.AnnAssign, ast.For)):
+                tg = n.targets if isinstance(n, ast.Assign) else [n.target]
+                for t in tg:
+                    for x in ast.walk(t):
+                        if isinstance(x, ast.Name):
+                            rebound.add(x.id)
+        seen: Dict[Tuple, Finding] = {}
+        for items, end in paths:
+            known = set()
+            feasible = True
+            for kind, st in items:
+                if kind in ("if-true", "if-false"):
+                    names = {x.id for x in ast.walk(st.test) if isinstance(x, ast.Name)}
+                    if names & rebound:
+                        continue
+                    dnf = G.atoms_of(st.test, kind == "if-true", canon)
+                    if len(dnf) == 1:
+                        if not G._consistent(frozenset(known | dnf[0])):
+                            feasible = False
+                            break
+                        known |= dnf[0]
+                    elif dnf and all(not G._consistent(frozenset(known | a)) for a in dnf):
+                        feasible = False
+                        break
+            if not feasible:
+                continue
+            self.n_paths += 1
+            env = dict(init_env)
+            self.findings = []
+            for kind, st in items:
+                if kind in ("if-true", "if-false"):
+                    self.ev(st.test, env)
+                    self.narrow(st.test, kind == "if-true", env)
+                elif kind == "loop-enter" and isinstance(st, ast.For):
+                    self.ev(st.iter, env)
+                    for n in ast.walk(st.target):
+                        if isinstance(n, ast.Name):
+                            env[n.id] = UNK
+                elif kind in ("stmt", "return"):
+                    self.stmt(st, env)
+            for f in self.findings:
+                k = (f.rule, getattr(f.node, "lineno", 0), getattr(f.node, "col_offset", 0), f.desc)
+                if k not in seen or (seen[k].ok and not f.ok):
+                    seen[k] = f
+        self.findings = list(seen.values())
 
     # ------------------------------------------------------------ bookkeeping
     def note(self, rule, desc, detail, node, ok):
@@ -118,7 +193,8 @@ class IxWalk:
             if x == y and x is not None:
                 out[k] = x
             elif x is not None and y is not None and x.kind == y.kind:
-                out[k] = IV(x.kind, merge(x.rows, y.rows), merge(x.dom, y.dom), (), x.obj if x.obj == y.obj else None)
+                out[k] = IV(x.kind, merge(x.rows, y.rows), merge(x.dom, y.dom), (), x.obj if x.obj == y.obj else None,
+                            x.shp if x.shp == y.shp else None)
             else:
                 out[k] = UNK
         return out
@@ -188,7 +264,9 @@ class IxWalk:
             if sel is not None and base.rows:
                 self.check_dom(base, sel, t, f"{ast.unparse(t)[:60]} = ...")
                 if v.kind in ("arr", "idx", "mask") and v.rows and sel.rows:
-                    ok = rel(v.rows, sel.rows)
+                    first = t.slice.elts[0] if isinstance(t.slice, ast.Tuple) and t.slice.elts else t.slice
+                    expect = sel.rows if sel.kind == "idx" else f"{base.rows}|{sel.rows}#{self._mask_id(first)}"
+                    ok = rel(v.rows, expect)
                     self.note("IX-seq", f"stored values are aligned with the positions they are stored at: {ast.unparse(t)[:50]} = {ast.unparse(st.value)[:50]}",
                               f"positions follow `{sel.rows}`, values follow `{v.rows}`", st, ok)
         elif isinstance(t, ast.Attribute):
@@ -217,9 +295,16 @@ class IxWalk:
         if len(arrs) == 2 and a.rows and b.rows:
             self.note("IX-seq", f"element-wise operands are aligned row by row: {text}",
                       f"left follows `{a.rows}`, right follows `{b.rows}`", node, rel(a.rows, b.rows))
+        if len(arrs) == 2 and {a.shp, b.shp} == {"vec", "col"}:
+            self.note("IX-kind", f"element-wise operands have the same layout (vector vs column): {text}",
+                      f"a length-n vector combined with an (n,1) column broadcasts to an n-by-n table, not to n element-wise results "
+                      f"(left is {a.shp}, right is {b.shp})", node, False)
+        elif len(arrs) == 2 and a.shp and b.shp and a.shp == b.shp:
+            self.note("IX-kind", f"element-wise operands have the same layout (vector vs column): {text}", f"both {a.shp}", node, True)
         if arrs:
             r = arrs[0].rows if len(arrs) == 1 or arrs[0].rows == arrs[1].rows else (arrs[0].rows or arrs[1].rows)
-            return IV("arr", rows=r)
+            shp = arrs[0].shp if len(arrs) == 1 or arrs[0].shp == arrs[1].shp else None
+            return IV("arr", rows=r, shp=shp)
         return SCALAR if a.kind == b.kind == "scalar" else UNK
 
     def ev(self, e, env) -> IV:
@@ -233,7 +318,7 @@ class IxWalk:
             b = self.ev(e.value, env)
             if b.kind == "obj" and b.obj:
                 if e.attr in ("subs", "vals"):
-                    return IV("arr", rows=b.obj)
+                    return IV("arr", rows=b.obj, shp="mat" if e.attr == "subs" else "col")
                 if e.attr in ("shape", "nnz", "ndims", "order", "size"):
                     return SCALAR
                 return IV("obj", obj=f"{b.obj}.{e.attr}")
@@ -246,7 +331,7 @@ class IxWalk:
         if isinstance(e, ast.UnaryOp):
             v = self.ev(e.operand, env)
             if v.kind in ("arr", "mask", "idx"):
-                return IV("mask" if isinstance(e.op, (ast.Not, ast.Invert)) else "arr", rows=v.rows)
+                return IV("mask" if isinstance(e.op, (ast.Not, ast.Invert)) else "arr", rows=v.rows, shp=v.shp)
             return v
         if isinstance(e, ast.BinOp):
             a, b = self.ev(e.left, env), self.ev(e.right, env)
@@ -254,7 +339,7 @@ class IxWalk:
         if isinstance(e, ast.Compare):
             a, b = self.ev(e.left, env), self.ev(e.comparators[0], env)
             r = self.elementwise(a, b, e, ast.unparse(e)[:90])
-            return IV("mask", rows=r.rows) if r.kind == "arr" else SCALAR
+            return IV("mask", rows=r.rows, shp=r.shp) if r.kind == "arr" else SCALAR
         if isinstance(e, ast.BoolOp):
             for v in e.values:
                 self.ev(v, env)
@@ -283,8 +368,14 @@ class IxWalk:
             # tensor[subs] : one value per row of the subscript array
             k = self.ev(sl, env) if not isinstance(sl, (ast.Slice, ast.Tuple)) else UNK
             if k.kind in ("arr", "idx") and k.rows:
-                return IV("arr", rows=k.rows)
+                # dense tensors answer a subscript array with a vector, sparse tensors with a column
+                return IV("arr", rows=k.rows, shp={"tensor": "vec", "sptensor": "col"}.get(base.cls),
+                          ms=base.cls in (None, "tensor", "sptensor"))
             return UNK
+        if base.kind == "arr" and base.ms:
+            self.note("SC", f"a tensor lookup that may collapse to a scalar is normalised before it is subscripted: {ast.unparse(e)[:70]}",
+                      "tensor[subs] returns a Python float when the subscript array has exactly one row; subscripting it then raises "
+                      "(use np.atleast_1d first)", e, False)
         if base.kind not in ("arr", "idx", "mask"):
             if not isinstance(sl, (ast.Slice,)):
                 self.ev(sl.elts[0] if isinstance(sl, ast.Tuple) and sl.elts else sl, env)
@@ -294,20 +385,59 @@ class IxWalk:
         if isinstance(first, ast.Slice):
             if first.lower is None and first.upper is None and first.step is None:
                 # column selection / newaxis keeps the rows
-                return IV(base.kind, rows=base.rows, dom=base.dom)
-            return IV(base.kind, rows=None, dom=base.dom)
+                shp = base.shp
+                if rest:
+                    r0 = rest[0]
+                    if isinstance(r0, ast.Constant) and r0.value is None:
+                        shp = "col" if base.shp == "vec" else None
+                    elif isinstance(r0, ast.Constant) and isinstance(r0.value, int):
+                        shp = "vec"
+                    elif isinstance(r0, ast.Slice):
+                        shp = base.shp
+                    else:
+                        shp = "mat" if base.shp == "mat" else None
+                return IV(base.kind, rows=base.rows, dom=base.dom, shp=shp)
+            return IV(base.kind, rows=None, dom=base.dom, shp=base.shp)
         if isinstance(first, ast.Constant) and first.value is None:
             return base
         sel = self.ev(first, env)
         if sel.kind in ("idx", "mask"):
             self.check_dom(base, sel, e, ast.unparse(e)[:70])
             if sel.kind == "idx":
-                return IV(base.kind, rows=sel.rows, dom=base.dom)
+                return IV(base.kind, rows=sel.rows, dom=base.dom, shp=base.shp)
             rid = f"{base.rows}|{sel.rows}#{self._mask_id(first)}" if base.rows and sel.rows else None
-            return IV(base.kind, rows=rid, dom=base.dom)
+            return IV(base.kind, rows=rid, dom=base.dom, shp=base.shp)
         if sel.kind == "scalar":
             return SCALAR if not rest else UNK
         return IV(base.kind, rows=None, dom=base.dom)
+
+    def narrow(self, test, truth: bool, env) -> None:
+        if isinstance(test, ast.UnaryOp) and isinstance(test.op, ast.Not):
+            return self.narrow(test.operand, not truth, env)
+        if truth and isinstance(test, ast.Call) and isinstance(test.func, ast.Name) and test.func.id == "isinstance" and len(test.args) == 2 \
+                and isinstance(test.args[0], ast.Name):
+            t = test.args[1]
+            if not isinstance(t, ast.Tuple):
+                c = (dotted(t) or "").split(".")[-1]
+                cur = env.get(test.args[0].id, UNK)
+                if c in ("tensor", "sptensor", "ktensor", "ttensor", "sumtensor"):
+                    env[test.args[0].id] = IV("obj", obj=cur.obj or test.args[0].id, cls=c)
+                elif c in ("ndarray",):
+                    env[test.args[0].id] = IV("arr", rows=cur.rows or test.args[0].id)
+
+    def _count_dom(self, args, env) -> Optional[str]:
+        """arange(X.nnz) / range(0, X.nnz) / arange(len(X.subs)) enumerate the rows of X."""
+        last = args[-1] if len(args) <= 2 else args[1]
+        if isinstance(last, ast.Attribute) and last.attr == "nnz":
+            b = self.ev(last.value, env)
+            return b.obj if b.kind == "obj" else None
+        if isinstance(last, ast.Call) and isinstance(last.func, ast.Name) and last.func.id == "len" and last.args:
+            v = self.ev(last.args[0], env)
+            return v.rows if v.kind in ("arr", "idx", "mask") else None
+        if isinstance(last, ast.Subscript) and isinstance(last.value, ast.Attribute) and last.value.attr == "shape" and const(last.slice) == 0:
+            v = self.ev(last.value.value, env)
+            return v.rows if v.kind in ("arr", "idx", "mask") else None
+        return None
 
     def _mask_id(self, node) -> str:
         return ast.unparse(node)[:40]
@@ -326,14 +456,14 @@ class IxWalk:
         if base == "tt_intersect_rows" and len(av) == 2:
             a, b = rows_of(av[0]), rows_of(av[1])
             if a and b:
-                return IV("idx", rows=f"common({'&'.join(sorted((a, b)))}) in order of {b}", dom=a)
-            return IV("idx", rows=None, dom=a)
+                return IV("idx", rows=f"common({'&'.join(sorted((a, b)))}) in order of {b}", dom=a, shp="vec")
+            return IV("idx", rows=None, dom=a, shp="vec")
         if base == "tt_setdiff_rows" and len(av) == 2:
             a = rows_of(av[0])
-            return IV("idx", rows=self.fresh("setdiff", e), dom=a)
+            return IV("idx", rows=self.fresh("setdiff", e), dom=a, shp="vec")
         if base == "tt_ismember_rows" and len(av) == 2:
             s, t = rows_of(av[0]), rows_of(av[1])
-            return IV("tuple", elts=(IV("mask", rows=s), IV("idx", rows=s, dom=t)))
+            return IV("tuple", elts=(IV("mask", rows=s, shp="vec"), IV("idx", rows=s, dom=t, shp="vec")))
         if base == "tt_union_rows":
             return IV("arr", rows=self.fresh("union", e))
         if isinstance(e.func, ast.Attribute):
@@ -346,12 +476,18 @@ class IxWalk:
                 if base in ("copy",):
                     return recv
                 return UNK
+            if recv.kind == "arr" and recv.ms and base in ("transpose", "dot", "reshape", "squeeze", "astype", "flatten", "ravel", "sum", "all", "any"):
+                self.note("SC", f"a tensor lookup that may collapse to a scalar is normalised before `.{base}()`: {ast.unparse(e)[:70]}",
+                          "tensor[subs] returns a Python float when the subscript array has exactly one row; a float has no such method "
+                          "(use np.atleast_1d first)", e, False)
             if recv.kind in ("arr", "idx", "mask"):
-                if base in ("astype", "copy", "squeeze", "flatten", "ravel", "conj", "round"):
-                    return IV(recv.kind, rows=recv.rows, dom=recv.dom)
+                if base in ("astype", "copy", "conj", "round"):
+                    return IV(recv.kind, rows=recv.rows, dom=recv.dom, shp=recv.shp)
+                if base in ("squeeze", "flatten", "ravel"):
+                    return IV(recv.kind, rows=recv.rows, dom=recv.dom, shp="vec" if recv.shp in ("col", "vec") else None)
                 if base == "transpose":
-                    # (n,1) columns are transposed to take [0]: keep rows when followed by [0] (handled by Subscript const)
-                    return IV("tuple", elts=(IV(recv.kind, rows=recv.rows, dom=recv.dom),)) if True else UNK
+                    # an (n,1) column transposed and indexed by [0] is the vector of its entries
+                    return IV("tuple", elts=(IV(recv.kind, rows=recv.rows, dom=recv.dom, shp="vec" if recv.shp == "col" else None),))
                 if base in ("all", "any", "sum", "max", "min", "item", "dot"):
                     return SCALAR
                 return UNK
@@ -360,13 +496,13 @@ class IxWalk:
             if base in ("where", "nonzero", "flatnonzero") and len(av) == 1:
                 m = av[0]
                 r = self.fresh("where", e) if True else None
-                idx = IV("idx", rows=f"where({ast.unparse(args[0])[:40]})", dom=rows_of(m))
+                idx = IV("idx", rows=f"where({ast.unparse(args[0])[:40]})", dom=rows_of(m), shp="vec")
                 return idx if base == "flatnonzero" else IV("tuple", elts=(idx, idx))
             if base in ("logical_and", "logical_or", "logical_xor") and len(av) == 2:
                 r = self.elementwise(av[0], av[1], e, ast.unparse(e)[:90])
-                return IV("mask", rows=r.rows)
+                return IV("mask", rows=r.rows, shp=r.shp)
             if base == "logical_not" and av:
-                return IV("mask", rows=rows_of(av[0]))
+                return IV("mask", rows=rows_of(av[0]), shp=av[0].shp)
             if base in ("vstack", "concatenate") and args and isinstance(args[0], (ast.Tuple, ast.List)):
                 parts = [self.ev(x, env) for x in args[0].elts]
                 ax = kwarg(e, "axis")
@@ -384,17 +520,25 @@ class IxWalk:
                 # np.ones((X.shape[0], 1)): aligned with X when the row count is taken from X
                 if args and isinstance(args[0], (ast.Tuple, ast.List)) and args[0].elts:
                     d0 = args[0].elts[0]
+                    shp = "vec" if len(args[0].elts) == 1 else ("col" if len(args[0].elts) == 2 and const(args[0].elts[1]) == 1 else None)
+                    if isinstance(d0, ast.Name) and d0.id in self.count_src:
+                        d0 = self.count_src[d0.id]
                     if isinstance(d0, ast.Subscript) and isinstance(d0.value, ast.Attribute) and d0.value.attr == "shape" and const(d0.slice) == 0:
                         src = self.ev(d0.value.value, env)
                         if rows_of(src):
-                            return IV("arr", rows=rows_of(src))  # constant array with as many rows as src: trivially aligned
+                            return IV("arr", rows=rows_of(src), shp=shp)  # constant array with as many rows as src: trivially aligned
+                    return IV("arr", shp=shp)
                 return IV("arr")
+            if base in ("atleast_1d", "atleast_2d") and av and av[0].kind == "arr":
+                if av[0].ms:
+                    self.note("SC", f"a tensor lookup that may collapse to a scalar is normalised: {ast.unparse(e)[:70]}", f"np.{base}", e, True)
+                return IV("arr", rows=av[0].rows, shp=(av[0].shp or "vec") if base == "atleast_1d" else None)
             if base in ("abs", "sqrt", "exp", "log", "sign", "isnan", "isinf", "isfinite", "atleast_1d", "array", "asarray", "squeeze",
                         "expand_dims", "ascontiguousarray", "multiply", "divide", "power", "maximum", "minimum", "float64", "nan_to_num"):
                 if av and av[0].kind in ("arr", "idx", "mask"):
                     if len(av) >= 2 and base in ("multiply", "divide", "power", "maximum", "minimum"):
                         return self.elementwise(av[0], av[1], e, ast.unparse(e)[:90])
-                    return IV(av[0].kind, rows=av[0].rows, dom=av[0].dom)
+                    return IV(av[0].kind, rows=av[0].rows, dom=av[0].dom, shp=av[0].shp if base not in ("squeeze", "expand_dims", "atleast_1d") else None)
                 return UNK
             if base == "unique" and av:
                 u = self.fresh("unique", e)
@@ -409,10 +553,18 @@ class IxWalk:
                         else:
                             outs.append(IV("arr", rows=u))
                 return outs[0] if len(outs) == 1 else IV("tuple", elts=tuple(outs))
-            if base in ("setdiff1d", "intersect1d", "union1d"):
-                return IV("idx", rows=self.fresh(base, e), dom=av[0].dom if av and av[0].kind == "idx" else None)
+            if base in ("setdiff1d", "intersect1d", "union1d") and len(av) >= 2:
+                da = av[0].dom if av[0].kind == "idx" else None
+                db = av[1].dom if av[1].kind == "idx" else None
+                if da and db:
+                    self.note("IX-dom", f"index sets combined by {base} address the same array: {ast.unparse(e)[:80]}",
+                              f"first set indexes `{da}`, second set indexes `{db}`", e, rel(da, db))
+                return IV("idx", rows=self.fresh(base, e), dom=da, shp="vec")
             if base in ("arange",):
-                return IV("idx", rows=self.fresh("arange", e))
+                return IV("idx", rows=self.fresh("arange", e), dom=self._count_dom(args, env), shp="vec")
+            if base == "expand_dims" and av and av[0].kind in ("arr", "idx", "mask"):
+                ax = kwarg(e, "axis") or (args[1] if len(args) > 1 else None)
+                return IV(av[0].kind, rows=av[0].rows, dom=av[0].dom, shp="col" if av[0].shp == "vec" and const(ax) == 1 else None)
             if base in ("sum", "all", "any", "max", "min", "prod", "isscalar", "array_equal"):
                 return SCALAR
             return UNK
@@ -429,6 +581,8 @@ class IxWalk:
                 self.note("IX-pair", f"subscripts and values of the result are aligned: {ast.unparse(e)[:90]}",
                           f"subscripts follow `{rows_of(s)}`, values follow `{rows_of(v)}`", e, rel(rows_of(s), rows_of(v)))
             return IV("obj", obj=self.fresh("new", e))
+        if base == "range" and args:
+            return IV("idx", rows=self.fresh("range", e), dom=self._count_dom(args, env), shp="vec")
         if base in ("len", "int", "float", "prod", "max", "min", "sum", "isinstance", "range", "tuple", "list", "bool"):
             return SCALAR if base not in ("tuple", "list", "range") else UNK
         return UNK
